@@ -301,6 +301,13 @@ class SignEditVerify(Family):
             s3[i] = sigs[i][:-1] + bytes([ht ^ 0x01])
             d3 = SH.legacy(subscript, m, idx, ht ^ 0x01)
             subs.append(('hash-type byte of signature %d flipped' % i, mk_sig(s3), d3 == (want_digest, want_err)))
+        for i in range(len(sigs)):
+            der, hb = sigs[i][:-1], sigs[i][-1:]
+            for dname, bad in (('sequence tag 0x31', b'\x31' + der[1:]), ('sequence length + 1', der[:1] + bytes([der[1] + 1]) + der[2:]),
+                               ('integer tag 0x03', der[:2] + b'\x03' + der[3:]), ('truncated by 3 bytes', der[:-3]), ('empty sequence', b'\x30\x00')):
+                s5 = list(sigs)
+                s5[i] = bad + hb
+                subs.append(('damaged encoding of signature %d (%s), checked right after the genuine input' % (i, dname), mk_sig(s5), False))
         if len(sigs) >= 2:
             for perm in itertools.permutations(range(len(sigs))):
                 if list(perm) != list(range(len(sigs))):
@@ -337,6 +344,10 @@ class SignEditVerify(Family):
                 subs.append(('redeem script and signature substituted by a foreign key', b'\x00' + push(fs1) + push(redeem2), False))
         refcs = L.make_checksig(m, idx)
         for sname, script2, expect in subs:
+            if sname.startswith('damaged'):
+                # the genuine input is verified immediately before (same digest, same key)
+                if verify(sig_script, spk, m, idx, P2SHF)[0] != 'ok':
+                    raise Viol('genuine input rejected on re-verification (%s)' % what, 'accept', 'reject')
             # first without SCRIPT_VERIFY_P2SH (a P2SH output then only compares the script hash), judged by the reference
             # interpreter; then with it: the first verdict must not colour the second
             try:
